@@ -86,7 +86,7 @@ def _obj(x):
             raise UnsupportedByShim("ragged array construction")
         out = _np.empty((len(parts),) + shp, dtype=object)
         for i, p in enumerate(parts):
-            out[i] = p
+            out[i] = p[()] if p.ndim == 0 else p
         return out
     out = _np.empty((), dtype=object)
     out[()] = _norm_cell(x)
@@ -282,7 +282,7 @@ class SymArray:
 
     # -- arithmetic
     def _binop(self, o, f, dt=None):
-        if hasattr(o, "_symq_value") and not isinstance(o, SymArray):
+        if (hasattr(o, "_symq_value") and not isinstance(o, SymArray)) or type(o).__name__ in ("Unit", "Time", "RecordRows"):
             return NotImplemented
         ob = _obj(o) if isinstance(o, (SymArray, _np.ndarray, list, tuple)) else o
         a, b = self.a, ob
